@@ -597,7 +597,9 @@ def check_initial_state(F, R, ctor, adt, expect, inst):
     from . import deep as D
     info = F.adt(adt)
     names = [f["name"] for f in info["variants"][0]["fields"]]
-    rows = D.Deep(F, ctor, max_paths=50, inline=False).run()
+    # (a constructor may delegate to another constructor of the same type: `From::from` -> `Self::new`)
+    own_ctor = lambda cb: bool(cb.impl and cb.impl.get("self_adt") == adt and re.sub(r"<.*", "", cb.locals[0].strip()) in (adt, "Self"))
+    rows = D.Deep(F, ctor, max_paths=50, inline_only=own_ctor).run()
     bad = None
     if not rows or any(p.cut for p in rows):
         bad = "empty path table or a loop"
